@@ -1251,6 +1251,18 @@ fn prologue(g: &mut Gen, variant: u64) {
             }
         }
     }
+    if variant % 13 == 5 && elems.len() >= 2 {
+        // a name clash ACROSS element kinds: paths are one name space per package, so a copied / moved I-SIGNAL `Sig` must be
+        // renamed although the element that holds the name is a SYSTEM-SIGNAL
+        let r = g.push(Op::CreateNamed(elems[elems.len() - 1], n.elidx("I-SIGNAL"), b"Sig".to_vec()));
+        if let Some(x) = oknum(&r) {
+            match (variant / 13) % 3 {
+                0 => { g.push(Op::Copy(elems[0], x)); }
+                1 => { g.push(Op::Move(elems[0], x)); }
+                _ => { g.push(Op::CopyAt(elems[0], x, 0)); }
+            }
+        }
+    }
     if variant % 11 == 7 && elems.len() >= 2 {
         // names at the length limit of SHORT-NAME (127 / 128 characters) that collide when an element moves or is copied:
         // make_unique_item_name appends `_1` (C07 known finding unique-name-exceeds-max-length on the unchanged tree;
